@@ -268,6 +268,30 @@ def rule_e(ctx, fns):
         std = "this.standardise_keyword(v%d)" % f.params[0]["d"] if f.params else "?"
         ok = bool(pb) and std in key(pb[0], False, _sub) and bool(fk) and key(fk[0].call_args()[0], False, _sub) == std
         ctx.ob("C17.e-keyword-normalisation", f.qn, "stores-standardised-form", ok, f.where(), "the standardised keyword is what is looked up and stored" if ok else "the raw keyword is stored or looked up")
+    # every PUBLIC member that is handed a keyword and compares it with the keymap's (standardised) entries, or looks it up, does so
+    # with the standardised form (F84: remove_key compared the raw argument)
+    seen_pub = set()
+    for f in fns:
+        if f.body is None or f.cls != "stir::KeyParser" or f.d.get("access", 0) != 0 or (f.file, f.body.line) in seen_pub:
+            continue
+        sp = [p for p in f.params if re.search(r"(std::)?(basic_)?string", p.get("t") or "") and "&" in (p.get("t") or "") and (p.get("t") or "").lstrip().startswith("const")]
+        if not sp:
+            continue
+        seen_pub.add((f.file, f.body.line))
+        for p in sp:
+            pk = "v%d" % p["d"]
+            raw = []
+            for m in f.walk():
+                if m.k in ("BinaryOperator", "CXXOperatorCallExpr") and m.op in ("==", "!=") and len(m.c) >= 2:
+                    ks = [key(x.strip()) for x in m.c[-2:]]
+                    if pk in ks and any(".first" in k_ or "kmap" in k_ for k_ in ks):
+                        raw.append(m)
+                if m.is_call() and (m.callee or "").endswith("::find_in_keymap") and m.call_args() and key(m.call_args()[0].strip()) == pk:
+                    raw.append(m)
+            uses_keymap = any(".first" in key(m) or (m.is_call() and (m.callee or "").endswith("::find_in_keymap")) for m in f.walk() if m.k in ("BinaryOperator", "CXXOperatorCallExpr", "CXXMemberCallExpr"))
+            if not uses_keymap:
+                continue
+            ctx.ob("C17.e-keyword-normalisation", f.qn, "public-lookup-standardised:" + (p.get("n") or "?"), not raw, (raw[0] if raw else f).where(), "the keyword argument is standardised before it is compared with the keymap" if not raw else "the keyword argument `%s` is compared with the keymap's standardised entries as given: a keyword spelt with capitals or extra blanks is not found" % p.get("n"))
     for f in byname.get("read_and_parse_line", [])[:1]:
         if not f.cfg_raw:
             continue
